@@ -3,9 +3,11 @@
 package engines
 
 import (
-	"strings"
 	"bytes"
 	"context"
+	"crypto/ecdh"
+	"crypto/rand"
+	"strings"
 	"fmt"
 	mathrand "math/rand"
 	"net"
@@ -21,6 +23,7 @@ import (
 	"github.com/hashicorp/nodeenrollment/rotation"
 	"github.com/hashicorp/nodeenrollment/storage/inmem"
 	"github.com/hashicorp/nodeenrollment/types"
+	"google.golang.org/protobuf/proto"
 	"google.golang.org/protobuf/types/known/structpb"
 )
 
@@ -47,6 +50,8 @@ func TestRaceStress(t *testing.T) {
 			raceListener(t, rng)
 		case "C17":
 			raceSplit(t, rng)
+		case "C11":
+			raceCrypto(t, rng)
 		default:
 			t.Fatalf("no race stress for %s", prop)
 		}
@@ -311,4 +316,91 @@ func raceListener(t *testing.T, rng *mathrand.Rand) {
 			t.Fail()
 		}
 	}
+}
+
+// raceCrypto (C11, auxiliary): message encryption and decryption from many goroutines at once - the way a server uses it,
+// one goroutine per connection - over a few shared key pairs, mixing good ciphertexts with modified, truncated, foreign and
+// wrong-key-ID ones, so that failing decryptions overlap too. Facts that load cannot disturb: a good ciphertext opens to
+// exactly its message; a damaged one fails or still yields the original; nothing panics.
+func raceCrypto(t *testing.T, rng *mathrand.Rand) {
+	ctx := context.Background()
+	const pairs = 3
+	eps := make([]*epochKeys, pairs)
+	for i := range eps {
+		e := &epochKeys{n: i}
+		e.nodeEnc, _ = ecdh.X25519().GenerateKey(rand.Reader)
+		e.srvEnc, _ = ecdh.X25519().GenerateKey(rand.Reader)
+		e.pkix = make([]byte, 44)
+		rand.Read(e.pkix)
+		eps[i] = e
+	}
+	// the harness's own key-ID memo is not made for parallel use: build every record before the rush and hand each use a copy
+	// (the way a server loads a fresh record per connection)
+	credsOf, infoOf := make([]*types.NodeCredentials, pairs), make([]*types.NodeInformation, pairs)
+	for i, e := range eps {
+		credsOf[i], infoOf[i] = e.creds(), e.info()
+	}
+	creds := func(i int) *types.NodeCredentials { return proto.Clone(credsOf[i]).(*types.NodeCredentials) }
+	info := func(i int) *types.NodeInformation { return proto.Clone(infoOf[i]).(*types.NodeInformation) }
+	var wg sync.WaitGroup
+	start := make(chan struct{})
+	n := 8 + rng.Intn(16)
+	for g := 0; g < n; g++ {
+		wg.Add(1)
+		r2 := mathrand.New(mathrand.NewSource(rng.Int63()))
+		g := g
+		go func() {
+			defer wg.Done()
+			defer func() {
+				if p := recover(); p != nil {
+					fmt.Printf("CRYPTO-VIOLATION message encryption panicked under parallel use: %v\n", p)
+					t.Fail()
+				}
+			}()
+			<-start
+			for j := 0; j < 40; j++ {
+				e := eps[r2.Intn(pairs)]
+				msg := &types.FetchNodeCredentialsResponse{EncryptedNodeCredentials: []byte(fmt.Sprintf("payload-%d-%d", g, j)), ServerEncryptionPublicKeyType: types.KEYTYPE_X25519}
+				var enc, dec nodeenrollment.X25519KeyProducer = creds(e.n), info(e.n)
+				if r2.Intn(2) == 0 {
+					enc, dec = info(e.n), creds(e.n)
+				}
+				ct, err := nodeenrollment.EncryptMessage(ctx, msg, enc)
+				if err != nil {
+					fmt.Printf("CRYPTO-VIOLATION EncryptMessage failed under parallel use: %v\n", err)
+					t.Fail()
+					return
+				}
+				kind := r2.Intn(5)
+				bad := append([]byte(nil), ct...)
+				switch kind {
+				case 0: // untouched
+				case 1:
+					bad[r2.Intn(len(bad))] ^= 1 << uint(r2.Intn(8))
+				case 2:
+					bad = bad[:r2.Intn(len(bad))]
+				case 3: // another pair's key
+					dec = info((e.n + 1) % pairs)
+				case 4:
+					bad = make([]byte, r2.Intn(40))
+					r2.Read(bad)
+				}
+				out := new(types.FetchNodeCredentialsResponse)
+				err = nodeenrollment.DecryptMessage(ctx, bad, dec, out)
+				switch {
+				case kind == 0 && (err != nil || !proto.Equal(out, msg)):
+					fmt.Printf("CRYPTO-VIOLATION a good ciphertext did not open to its message under parallel use: err=%v\n", err)
+					t.Fail()
+				case kind == 3 && err == nil:
+					fmt.Printf("CRYPTO-VIOLATION a ciphertext opened under another pair's key\n")
+					t.Fail()
+				case kind != 0 && err == nil && !proto.Equal(out, msg):
+					fmt.Printf("CRYPTO-VIOLATION a damaged ciphertext (kind %d) opened to a different message\n", kind)
+					t.Fail()
+				}
+			}
+		}()
+	}
+	close(start)
+	wg.Wait()
 }
